@@ -509,4 +509,63 @@ theorem good_history {c : Cfg} (evs : List Ev) (hwf : ∀ e ∈ evs, EvWF e) :
 
 theorem good_empty (c : Cfg) : Good c {} := fun e he => by simp at he
 
+
+/-! ### reloads that keep the filter (remote allow list, my networks) -/
+
+theorem usableGlobal_congr {c c' : Cfg} (hn : c.myNets = c'.myNets) (hr : c.ral = c'.ral) :
+    usableGlobal c = usableGlobal c' := by
+  funext u; simp [usableGlobal, inMyNets, hn, hr]
+
+theorem good_congr {c c' : Cfg} (hn : c.myNets = c'.myNets) (hr : c.ral = c'.ral) {s : LH} (h : Good c s) :
+    Good c' s := by
+  have hu := usableGlobal_congr hn hr
+  intro e he
+  have := h e he
+  simp only [RLGood, OCGood, hu] at this ⊢
+  exact this
+
+theorem good_foldl {c : Cfg} {α : Type} (l : List α) (f : LH → α → LH)
+    (hf : ∀ s a, Good c s → Good c (f s a)) : ∀ s, Good c s → Good c (l.foldl f s) := by
+  induction l with
+  | nil => intro s h; exact h
+  | cons a l ih => intro s h; exact ih _ (hf s a h)
+
+theorem good_reloadStatics {c : Cfg} {s : LH} (h : Good c s) (new : List (Addr × List AP)) :
+    Good c (reloadStatics c s new).2 := by
+  unfold reloadStatics
+  simp only
+  apply good_foldl
+  · intro s v hs
+    split
+    · exact hs
+    · split
+      · exact good_onList hs _ _ (fun rl hr => dirty_good hr rfl rfl)
+      · exact hs
+  · apply good_foldl
+    · intro s e hs; exact good_addStatic hs e.1 e.2
+    · apply good_foldl
+      · intro s v hs
+        split
+        · exact good_onList hs _ _ (fun rl hr => resetForOwner_good hr _)
+        · exact hs
+      · exact h
+
+/-- a reload that leaves the remote allow lists as they are (lighthouse hosts, static map, am_lighthouse …)
+preserves the cache invariant. -/
+theorem good_reloadNode {n : Node} (h : Good n.cfg n.lh) (new : RawCfg)
+    (hsame : new.g = n.raw.g ∧ new.ranges = n.raw.ranges) :
+    Good (reloadNode n new).cfg (reloadNode n new).lh := by
+  have hA : decide (new.g ≠ n.raw.g ∨ new.ranges ≠ n.raw.ranges) = false := by simp [hsame.1, hsame.2]
+  unfold reloadNode
+  simp only [hA, Bool.false_eq_true, if_false]
+  have hH : ∀ (c : Cfg) (hosts : List Addr), (reloadHosts c hosts).myNets = c.myNets ∧ (reloadHosts c hosts).ral = c.ral := by
+    intro c hosts; unfold reloadHosts; split <;> exact ⟨rfl, rfl⟩
+  unfold reloadApply
+  cases decide (new.statics ≠ n.raw.statics) <;> cases decide (new.hosts ≠ n.raw.hosts) <;> simp only [if_true, if_false, Bool.false_eq_true]
+  · exact h
+  · exact good_congr (hH _ _).1.symm (hH _ _).2.symm h
+  · exact good_congr (c := n.cfg) rfl rfl (good_reloadStatics h _)
+  · have := good_congr (c := n.cfg) (c' := (reloadStatics n.cfg n.lh new.statics).1) rfl rfl (good_reloadStatics h new.statics)
+    exact good_congr (hH _ _).1.symm (hH _ _).2.symm this
+
 end Nebula.Lemmas.LighthouseInv
